@@ -141,6 +141,9 @@ func dischargeFunc(sv *Solver, fr *FuncResult, par int) map[string]*oblStatus {
 			for _, v := range o.Vars {
 				terms = append(terms, v.Term)
 			}
+			for _, f := range o.Fields {
+				terms = append(terms, f.Term)
+			}
 			r := sv.solve(o.Name(), pre+o.Script, terms, o.Reach)
 			mu.Lock()
 			defer mu.Unlock()
